@@ -426,15 +426,37 @@ def fixture_oracle(ctx, env, sc, race_bin, stats):
     """byte-identical output across runs x GOMAXPROCS x yields x pattern subsets/orders; race detector."""
     base = {}
     for fmt in ("text", "json"):
-        b = env.run(sc, PKGS, fmt=fmt, timeout=900)
-        if b["hung"] or b["rc"] not in (0, 1):
-            raise Inconclusive("baseline fixture run failed: rc=%s %s" % (b["rc"], b["err"][-1500:]))
-        base[fmt] = b
-    for f, chk in EXPECT:
-        if not any(l.startswith(f + ":") and "(%s)" % chk in l for l in base["text"]["out"].splitlines()):
-            raise Inconclusive("fixture lost its trigger %s in %s:\n%s" % (chk, f, base["text"]["out"]))
-    if "(compile)" in base["text"]["out"]:
-        raise Inconclusive("fixture does not compile: %s" % base["text"]["out"])
+        for attempt in range(3):
+            b = env.run(sc, PKGS, fmt=fmt, timeout=1800)
+            if not b["hung"] and b["rc"] in (0, 1):
+                base[fmt] = b
+                break
+            if b["hung"] or "panic: " in b["err"] or "fatal error: " in b["err"]:
+                # the linter itself crashed / hung on a legal input: not an infrastructure problem
+                first = re.search(r"^(panic: .*|fatal error: .*)$", b["err"], re.M)
+                ctx.violation(vlib.canon_key({"baseline-crash": (first.group(1) if first else "hang")[:80]}),
+                              "staticcheck %s on the fixture with default settings: %s"
+                              % ("hung" if b["hung"] else "crashed", first.group(1) if first else ""),
+                              {"kind": "output", "run": {k: b[k] for k in ("argv", "gomaxprocs", "yseed", "fmt")},
+                               "hung": b["hung"], "stderr": b["err"][:4000]})
+            else:
+                raise Inconclusive("baseline fixture run failed: rc=%s %s" % (b["rc"], b["err"][-1500:]))
+        if fmt not in base:
+            return None, 0      # every attempt crashed: reported above, nothing to compare against
+    lost = [(f, chk) for f, chk in EXPECT
+            if not any(l.startswith(f + ":") and "(%s)" % chk in l for l in base["text"]["out"].splitlines())]
+    if lost or "(compile)" in base["text"]["out"]:
+        # a broken fixture (infrastructure) gives the same wrong answer every time; a scheduling defect does not
+        again = env.run(sc, PKGS, fmt="text", timeout=1800)
+        if again["out"] != base["text"]["out"] or again["rc"] != base["text"]["rc"]:
+            ctx.violation(vlib.canon_key({"patterns": PKGS, "kind": "output"}),
+                          "two runs of staticcheck on the fixture with default settings print different problems",
+                          {"kind": "output", "run": {k: again[k] for k in ("argv", "gomaxprocs", "yseed", "fmt")},
+                           "expected": base["text"]["out"], "observed": again["out"], "stderr": again["err"][-1500:]})
+            return None, 0
+        if ctx.violations:
+            return None, 0
+        raise Inconclusive("fixture does not produce its baseline (lost %s):\n%s" % (lost, base["text"]["out"]))
     tmo = max(240.0, 60 * base["text"]["wall"])
     stats["baseline_wall_s"] = round(base["text"]["wall"], 2)
     stats["baseline_problems"] = len(base["text"]["out"].splitlines())
@@ -575,6 +597,11 @@ def run(ctx):
 
     env = Env(ctx)
     base, tmo = fixture_oracle(ctx, env, sc, race_bin, stats)
+    if base is None:
+        th.join()
+        ctx.coverage = {"states": 1, "transitions": 1, "traces_validated_against_impl": 0,
+                        "samples": [{"note": "the baseline run of the fixture crashed; see the violation"}]}
+        return
     htraces, hstats, chosen = harness_binding(ctx, helper, 24 if ctx.quick else (cap() or 160),
                                               [0, ctx.seed * 10 + 1] if ctx.quick else [0] + [ctx.seed * 10 + k for k in (1, 2, 3)])
     stats["harness"] = hstats
